@@ -1,5 +1,5 @@
 """C17 - wire protocol: framing under any chunking (real MultiLineCodec), one reply per id (real PluginDriver in-process)."""
-import json, itertools, collections
+import json, itertools, collections, re
 from vlib import *
 
 HDR = "From Tramp Require Import Model.Base Model.Codec Check.Common Check.CodecCheck.\nOpen Scope N_scope."
@@ -43,15 +43,19 @@ def gen_decode(tier, seed):
         cases.append(chunkify(stream, cuts))
     return cases
 
+def reqs_param(reqs, i):
+    return [rq for rq in reqs if rq["method"] == "htlc_accepted"][i]["params"]
+
 def run(tier, seed):
     o = Outcome("C17", tier, seed)
     T = tier == "thorough"
     o.rule = ("decode: every string of up to %d symbols over {\\n, a, é (2 bytes), {} with every partition into read chunks (all cut sets when <= %d, random beyond), and real JSON-RPC "
               "message streams under random partitions down to 1-byte reads; encode: message lists; driver: the real Builder/PluginDriver in-process on duplex pipes of capacity 1..64 bytes, "
               "1-8 concurrent hook requests (numeric and string ids, UTF-8 in ids and params), request stream written in adversarial chunks, handlers released in every/random completion order, "
-              "a failing handler, interleaved notifications. Non-trivial: at least one complete frame (decode) / at least two requests (driver); distinct = distinct chunk list or scenario") % (6 if T else 5, 64 if T else 16)
+              "a failing handler, interleaved notifications; and scenarios with the plugin's real log writer sharing the output (handlers emit log lines of 10-3000 bytes), replies of up to 20 kB, "
+              "and a node that stops reading the plugin's output while further requests arrive (busy writer, back-pressure), one process per scenario. Non-trivial: at least one complete frame (decode) / at least two requests (driver); distinct = distinct chunk list or scenario") % (6 if T else 5, 64 if T else 16)
     o.assumptions = ["serde_json never emits a raw newline; FramedWrite::send under the output mutex writes message and separator together; tokio's scheduling of handler tasks: exercised, not proved",
-                     "concurrent log notifications on the real stdout are covered by the e2e engine only"]
+                     "log notifications: the real tracing layer and writer task of logging.rs on the in-process pipe; the real stdout is covered by the e2e engine only"]
     o.proof = proof_stage("C17", ["theories/Props/C17.vo", "theories/Check/CodecCheck.vo"])
     ok, log, binary = harness_build("dev")
     if not ok:
@@ -89,14 +93,46 @@ def run(tier, seed):
             for i in range(n - 1, 0, -1):
                 j = r.below(i + 1); order[i], order[j] = order[j], order[i]
             dcases.append({"cap": r.choice([1, 2, 3, 5, 7, 16, 64]), "requests": reqs, "chunks": [r.choice([1, 2, 3, 5, 8, 13, 100]) for _ in range(5)], "complete_order": order, "_n": n})
-        dobs = harness_run(binary, "driver", [json.dumps({k: v for k, v in c.items() if k != "_n"}) for c in dcases], shards=NCPU, timeout=900)
+        # ---- driver with the REAL log writer sharing the output, and a node that stops reading for a while (busy writer / back-pressure)
+        lcases = []
+        for k in range(96 if T else 32):
+            n = 2 + r.below(5)
+            reqs = []
+            for i in range(n):
+                rid = i if r.chance(1, 2) else "id-%d-é" % i
+                p = {"tag": i, "pad": "x" * r.below(40)}
+                if k % 2 == 0 and (i == 0 or r.chance(1, 3)): p["log"] = r.choice([10, 100, 500, 3000])
+                if k % 2 == 1 and (i == 0 or r.chance(1, 2)): p["big"] = r.choice([100, 5000, 9000, 20000])
+                if i == 0 or r.chance(2, 3): p["nogate"] = 1
+                reqs.append({"id": rid, "method": "htlc_accepted", "params": p})
+                if r.chance(1, 4): reqs.append({"method": "block_added", "params": {"block_added": {"height": i}}})
+            gated = [i for i in range(n) if "nogate" not in reqs_param(reqs, i)]
+            for i in range(len(gated) - 1, 0, -1):
+                j = r.below(i + 1); gated[i], gated[j] = gated[j], gated[i]
+            lcases.append({"cap": r.choice([16, 64, 64, 256, 4096]), "requests": reqs, "chunks": [r.choice([5, 13, 100, 1000]) for _ in range(3)], "complete_order": gated,
+                           "logging": k % 2 == 0, "pause_reader": k % 4 != 3, "_n": n, "_order": []})
+        for c in dcases: c["_order"] = c["complete_order"]
+        plain = [json.dumps({k: v for k, v in c.items() if not k.startswith("_")}) for c in dcases]
+        dobs = harness_run(binary, "driver", plain, shards=NCPU, timeout=900)
+        # the tracing subscriber is process-global: one logging case per process
+        from concurrent.futures import ThreadPoolExecutor
+        with ThreadPoolExecutor(NCPU) as ex:
+            lobs = list(ex.map(lambda c: harness_run(binary, "driver", [json.dumps({k: v for k, v in c.items() if not k.startswith("_")})], timeout=300)[0], lcases))
+        o.extra["driver_scenarios_with_log_writer_or_paused_reader"] = len(lcases)
+        dcases = dcases + lcases; dobs = dobs + lobs
         dterms = []
         for c, x in zip(dcases, dobs):
             hook_ids = [rq["id"] for rq in c["requests"] if rq["method"] == "htlc_accepted"]
             fails = {rq["id"] if not isinstance(rq["id"], list) else None: bool(rq["params"].get("fail")) for rq in c["requests"] if rq["method"] == "htlc_accepted"}
-            replies = []
+            replies, logs_seen = [], []
+            logs_emitted = [rq["params"]["tag"] for rq in c["requests"] if rq["method"] == "htlc_accepted" and "log" in rq["params"]]
+            logsize = {rq["params"]["tag"]: rq["params"]["log"] for rq in c["requests"] if rq["method"] == "htlc_accepted" and "log" in rq["params"]}
             for f in x["frames"][2:]:
-                if "id" in f and f["id"] in hook_ids:
+                if f.get("method") == "log" and "id" not in f:
+                    m = re.fullmatch(r"message: L(\d+):(x*)", str(f.get("params", {}).get("message")))
+                    if m: logs_seen.append(int(m.group(1)) if len(m.group(2)) == logsize.get(int(m.group(1))) else 997)
+                    # (log lines of the library itself, if any, are whole frames too: nothing more is asked of them)
+                elif "id" in f and f["id"] in hook_ids:
                     idx = hook_ids.index(f["id"])
                     if "result" in f: echo = f["result"].get("echo")
                     else: echo = idx if fails.get(f["id"]) and f.get("error", {}).get("message") else -1     # a failing handler answers with an error for ITS id
@@ -104,9 +140,10 @@ def run(tier, seed):
                 else:
                     replies.append("(999, 998)")
             trailing = len(x["trailing"]) // 2 + (0 if x["handshake_ok"] else 1)
-            dterms.append("(%d%%nat, %s, %s, %d, %d)" % (c["_n"], coq_list([str(i) for i in c["complete_order"]]), coq_list(replies), x["bad_frames"], trailing))
-        codes = eval_cases("C17r", HDR, dterms, "verdict_driver", "nat * list N * list (N * N) * N * N", per_shard=20)
-        tagged = [{"case": {k: v for k, v in c.items() if k != "_n"}, "obs": x} for c, x in zip(dcases, dobs)]
+            dterms.append("(%d%%nat, %s, %s, %d, %d, %s, %s)" % (c["_n"], coq_list([str(i) for i in c["_order"]]), coq_list(replies), x["bad_frames"], trailing,
+                                                                 coq_list([str(i) for i in logs_emitted]), coq_list([str(i) for i in logs_seen])))
+        codes = eval_cases("C17r", HDR, dterms, "verdict_driver", "nat * list N * list (N * N) * N * N * list N * list N", per_shard=20)
+        tagged = [{"case": {k: v for k, v in c.items() if not k.startswith("_")}, "obs": x} for c, x in zip(dcases, dobs)]
         o.note_codes(codes, tagged, lambda c: "driver scenario cap=%s order=%s: frames written %s" % (c["case"]["cap"], c["case"]["complete_order"], json.dumps(c["obs"]["frames"][2:])[:400]))
         for code, c in zip(codes, tagged):
             if (code >> 4) >= 2: o.nontrivial.add("r" + json.dumps(c["case"], sort_keys=True))
